@@ -780,15 +780,18 @@ class Table(JupyterMixin):
                     and not (show_header and header_row)
                 ):
                     if leading:
-                        yield _Segment(
-                            _box.get_row(widths, "mid", edge=show_edge) * leading,
-                            border_style,
-                        )
+                        # one blank line per leading row
+                        for _ in range(leading):
+                            yield _Segment(
+                                _box.get_row(widths, "mid", edge=show_edge),
+                                border_style,
+                            )
+                            yield new_line
                     else:
                         yield _Segment(
                             _box.get_row(widths, "row", edge=show_edge), border_style
                         )
-                    yield new_line
+                        yield new_line
 
         if _box and show_edge:
             yield _Segment(_box.get_bottom(widths), border_style)
